@@ -1,7 +1,10 @@
 (* C07 Owned, by-reference, fallible and into-existing flavours of a mapping agree (struct lines and bodies; partial for `?` propagation, see DESIGN.md). *)
 From Coq Require Import List String Ascii Bool.
 From O2o.Model Require Import Tok Syn Attr Ast Lookup Expand.
+From O2o.Gen Require Import Skeleton.
 From O2o.Lemmas Require Import Designated Flavours.
+Open Scope string_scope.
+Open Scope list_scope.
 Import ListNotations.
 
 (* by-reference = owned: with the same resolved view of the field, its line does not depend on the
@@ -57,3 +60,15 @@ Theorem C07_frame : forall s c fuel fs cs named,
      toks <- wrap_struct c (c_hint c) named (ls ++ List.concat gs ++ spec_update c) ;; Ok (toks, [])).
 Proof. exact init_block_plain. Qed.
 Print Assumptions C07_frame.
+
+(* the four Into-side bodies that flatten a bare #[parent] run vars, own assignments, parent conversions in the same order
+   (the quote! blocks are re-read from /repo on every run): into_existing and into agree on fields both write *)
+Theorem C07_statement_order :
+  statement_holes sk_into_body_post = ["pre_init"; "init"; "post_init"] /\
+  statement_holes sk_try_into_body_post = ["pre_init"; "init"; "post_init"] /\
+  statement_holes sk_into_existing = ["pre_init"; "init"; "post_init"] /\
+  statement_holes sk_try_into_existing = ["pre_init"; "init"; "post_init"] /\
+  statement_holes sk_into_body_plain = ["pre_init"; "init"] /\
+  statement_holes sk_try_into_body_plain = ["pre_init"; "init"].
+Proof. exact statement_order. Qed.
+Print Assumptions C07_statement_order.
